@@ -105,7 +105,7 @@ theorem atoms0_sound (env : Env) (auth : Str) (b : BExpr) (p : Bool) (as : List 
   atomsWith_sound env auth _ _ (by intro p h args as hh; simp at hh) b p as h
 
 theorem helperAtoms_sound (env : Env) (auth : Str) (p : Bool) (body : List HStmt) (as : List Atom)
-    (h : helperAtoms p body = some as) : helperVal env auth body = satB env auth p as := by
+    (h : helperAtoms p body = some as) : helperVal env auth false body = satB env auth p as := by
   unfold helperAtoms at h
   split at h
   · rename_i c
@@ -117,6 +117,9 @@ theorem helperAtoms_sound (env : Env) (auth : Str) (p : Bool) (body : List HStmt
     cases satB env auth p as <;> rfl
   · rename_i c
     simp only [helperVal, atoms0_sound env auth c p as h]
+  · rename_i c
+    simp only [helperVal, atoms0_sound env auth c p as h]
+    cases satB env auth p as <;> rfl
   · simp at h
 
 theorem callAtoms_sound (hs : List Helper) (env : Env) (auth : Str) (p : Bool) (h : String) (args : List SExpr)
